@@ -1079,8 +1079,10 @@ class Gen:
             return self.sub_g(cx, d)
         cx.tags.add("mutates-returned-list")
         a = self.arg(cx)
-        return "(mu(%s).append(7) or len(mu(%s)))" % (a, a) if self.builtin("len") else \
-            "(mu(%s).append(7) or mu(%s).count(7))" % (a, a)
+        # (the element is put back at once: what the helper holds must not depend on how often and in which
+        # order the harness happened to evaluate the callers - thorough seed 3 showed the difference)
+        return "(mu(%s).append(7) or len(mu(%s)) + (mu(%s).pop() is None))" % (a, a, a) if self.builtin("len") else \
+            "(mu(%s).append(7) or mu(%s).count(7) + (mu(%s).pop() is None))" % (a, a, a)
 
     # -- statements -----------------------------------------------------------------
     def stmt_hide_global(self, cx):
